@@ -61,6 +61,7 @@ Holds(ev, i, p) ==
     [] p = "C16legend" -> C16legend_OK(ev)
     [] p = "C16tags" -> C16tags_OK(ev)
     [] p = "C02" -> C02_OK(ev)
+    [] p = "C08v" -> C08v_OK(ev)
     [] p = "C08" -> C08_OK(ev)
     [] OTHER -> FALSE      \* an unknown predicate name is reported, never silently accepted
 
@@ -73,6 +74,7 @@ NonTrivial(ev, i, p) ==
     [] p = "C09run" -> TRUE
     [] p = "C15" -> HasQuoted(DrawCells(Base(ev, i)))
     [] p = "C02" -> C02_NT(ev)
+    [] p = "C08v" -> C02_NT(ev)
     [] p = "C08" -> C08_NT(ev)
     [] p = "C04" -> C04_NT(ev)
     [] p = "C04q" -> HasQuoted(DrawCells(ev))
